@@ -111,6 +111,10 @@ type zzvRec struct {
 
 const zzvOldTime = 1_000_000_000
 
+// the model's "now" (what a directory's mtime becomes when an entry is created in or removed from it); outside
+// the range of archive mtimes so that it cannot be confused with one
+const zzvNowTime = 2_100_000_000
+
 // zzvWorld is the situation an extraction runs in: <prefix>/w is the world, <prefix>/w/t the target,
 // <prefix>/w/o (a directory with one file) and <prefix>/w/of (a file) are the things that must not change.
 type zzvWorld struct {
@@ -174,6 +178,7 @@ func zzvSetup(state int) *zzvWorld {
 			m.addChild(parent, name, n, sd.path == m.target)
 		}
 		m.escape = ""
+		m.now = zzvNowTime
 		return w
 	}
 	tmp, err := os.MkdirTemp("", "zzvc38-")
@@ -397,15 +402,29 @@ func zzvTarBytes(w *zzvWorld, ents []zzvEntry) []byte {
 	return buf.Bytes()
 }
 
-func zzvRun(w *zzvWorld, ents []zzvEntry) {
+// zzvRun extracts the archive "ents followed by whatever gen yields" and applies the property's oracle.
+// gen(i) describes the i-th further member (ok=false: end of archive). Under the engine it is called by the
+// scripted tar reader only when Extract asks for the next header, so the choices for members behind the point at
+// which Extract gives up are never enumerated (Extract does not read them either); natively the members are
+// drawn up front in the same order (inputs that the engine never chose read as 0 = "no further member").
+func zzvRun(w *zzvWorld, ents []zzvEntry, gen func(i int) (zzvEntry, bool)) {
 	before := w.snapshot()
 	var rd io.Reader
 	if verifrt.Symbolic() {
-		zzvNextScript = &zzvScript{ents: ents}
+		zzvNextScript = &zzvScript{ents: ents, gen: gen}
 		// os.ErrNotExist lives in an opaque package whose init never ran
 		os.ErrNotExist = fs.ErrNotExist
 		os.ErrExist = fs.ErrExist
 	} else {
+		if gen != nil {
+			for i := 0; ; i++ {
+				e, ok := gen(i)
+				if !ok {
+					break
+				}
+				ents = append(ents, e)
+			}
+		}
 		rd = bytes.NewReader(zzvTarBytes(w, ents))
 	}
 	te := &Extractor{Path: w.p("/w/t")}
@@ -438,15 +457,24 @@ func zzvRun(w *zzvWorld, ents []zzvEntry) {
 	verifrt.Reach("end")
 }
 
-func zzvEntryFromPools(w *zzvWorld, i int, names []string) zzvEntry {
+// zzvPools bounds the further members of an archive: at most k of them, each with a type, a name and (for
+// symlinks) a link target from the pools; mode and mtime are symbolic.
+type zzvPools struct {
+	types []byte
+	names []string
+	links []string
+	k     int
+}
+
+func zzvEntryFromPools(w *zzvWorld, i int, p *zzvPools) zzvEntry {
 	e := zzvEntry{}
-	e.typ = zzvTypes[verifrt.NondetRange("typ", 0, len(zzvTypes)-1)]
-	e.name = names[verifrt.NondetRange("name", 0, len(names)-1)]
+	e.typ = p.types[verifrt.NondetRange("typ", 0, len(p.types)-1)]
+	e.name = p.names[verifrt.NondetRange("name", 0, len(p.names)-1)]
 	if strings.HasPrefix(e.name, "/") {
 		e.name = w.prefix + e.name
 	}
 	if e.typ == tar.TypeSymlink {
-		e.link = w.link(zzvLinks[verifrt.NondetRange("link", 0, verifrt.Param("L", len(zzvLinks))-1)])
+		e.link = w.link(p.links[verifrt.NondetRange("link", 0, len(p.links)-1)])
 	}
 	if e.typ == tar.TypeReg {
 		e.data = []byte{'D', byte('0' + i)}
@@ -454,28 +482,71 @@ func zzvEntryFromPools(w *zzvWorld, i int, names []string) zzvEntry {
 	mode := verifrt.NondetU32("mode")
 	verifrt.Assume(mode <= 0o7777)
 	e.mode = int64(mode)
+	// archive/tar never yields an unset time: an absent mtime field reads as the Unix epoch (mt = 0)
 	mt := verifrt.NondetI64("mt")
-	verifrt.Assume(mt >= 1 && mt <= 2_000_000_000)
+	verifrt.Assume(mt >= 0 && mt <= 2_000_000_000)
 	e.mt = mt
 	return e
 }
 
-// HarnessC38Extract: root directory entry "r" followed by 1..K entries (type, name, link target from pools;
-// mode and mtime symbolic) into each of the five pre-populated situations.
+// zzvGen: 0..p.k further members, each drawn from the pools; whether there is a further member is a choice too.
+func zzvGen(w *zzvWorld, p *zzvPools) func(i int) (zzvEntry, bool) {
+	return func(i int) (zzvEntry, bool) {
+		if i >= p.k || verifrt.NondetRange("more", 0, 1) == 0 {
+			return zzvEntry{}, false
+		}
+		return zzvEntryFromPools(w, i, p), true
+	}
+}
+
+func zzvRootDir() zzvEntry {
+	rootMode := verifrt.NondetU32("rootmode")
+	verifrt.Assume(rootMode <= 0o7777)
+	return zzvEntry{typ: tar.TypeDir, name: "r", mode: int64(rootMode), mt: 1_500_000_000}
+}
+
+// HarnessC38Extract (breadth): root directory entry "r" followed by 0..K entries (4 types, the wide name pool
+// incl. hostile names and names through pre-existing links; mode and mtime symbolic) into each of the five
+// pre-populated situations.
 func HarnessC38Extract() {
 	state := verifrt.NondetRange("state", 0, 4)
 	w := zzvSetup(state)
 	defer w.cleanup()
-	k := verifrt.NondetRange("k", 1, verifrt.Param("K", 2))
-	names := zzvNames[:verifrt.Param("NAMES", len(zzvNames))]
-	rootMode := verifrt.NondetU32("rootmode")
-	verifrt.Assume(rootMode <= 0o7777)
-	ents := []zzvEntry{{typ: tar.TypeDir, name: "r", mode: int64(rootMode), mt: 1_500_000_000}}
-	for i := 0; i < k; i++ {
-		ents = append(ents, zzvEntryFromPools(w, i, names))
-	}
-	zzvRun(w, ents)
+	p := &zzvPools{types: zzvTypes, k: verifrt.Param("K", 2),
+		names: zzvNames[:verifrt.Param("NAMES", len(zzvNames))],
+		links: zzvLinks[:verifrt.Param("L", len(zzvLinks))]}
+	zzvRun(w, []zzvEntry{zzvRootDir()}, zzvGen(w, p))
 }
+
+// Sequences in which later members act on what earlier members of the same archive left behind: the same name
+// again with another type (dir->symlink, dir->file, symlink->dir, file->dir, ...), members below a name an
+// earlier member created or replaced, siblings with shorter and longer names (deferUpdate applies the pending
+// directory metadata early depending on path lengths), link targets leading out of the target absolutely and
+// by "..". SN/SL cut the pools per tier.
+var zzvSeqTypes = []byte{tar.TypeDir, tar.TypeSymlink, tar.TypeReg}
+var zzvSeqNames = []string{"r/d", "r/d/x", "r/dd", "r/e"}
+var zzvSeqLinks = []string{"/w/o", "../o", "/w/of"}
+
+// HarnessC38Seq (depth): root directory entry "r" followed by 0..K entries from the small pools above (type in
+// {dir, symlink, file}; mode and mtime symbolic) into each of the five pre-populated situations.
+func HarnessC38Seq() {
+	state := verifrt.NondetRange("state", verifrt.Param("S0", 0), verifrt.Param("S1", 4))
+	w := zzvSetup(state)
+	defer w.cleanup()
+	p := &zzvPools{types: zzvSeqTypes, k: verifrt.Param("K", 3),
+		names: zzvSeqNames[:verifrt.Param("SN", len(zzvSeqNames))],
+		links: zzvSeqLinks[:verifrt.Param("SL", len(zzvSeqLinks))]}
+	root := zzvRootDir()
+	if verifrt.Param("RM0", 1) == 0 {
+		// tier bound: the root entry carries a non-zero mode (mode 0 = "no mode recorded" is a separate path
+		// through deferUpdate/updateMode for every archive; HarnessC38Extract keeps it)
+		verifrt.Assume(root.mode != 0)
+	}
+	zzvRun(w, []zzvEntry{root}, zzvGen(w, p))
+}
+
+// HarnessC38Seq4: as HarnessC38Seq with its own (longer, narrower) bounds.
+func HarnessC38Seq4() { HarnessC38Seq() }
 
 // HarnessC38Single: archives whose first entry is a file or a symlink (cp-like semantics: the object is put at
 // the target path, or inside it when the target is an existing directory), optionally followed by a second entry
@@ -485,11 +556,11 @@ func HarnessC38Single() {
 	w := zzvSetup(state)
 	defer w.cleanup()
 	rootNames := []string{"r", "d", "f", "l", "e", "..", "../of", ".", "o/../../of"}
-	first := zzvEntryFromPools(w, 0, rootNames)
+	first := zzvEntryFromPools(w, 0, &zzvPools{types: zzvTypes, names: rootNames, links: zzvLinks[:verifrt.Param("L", len(zzvLinks))]})
 	verifrt.Assume(first.typ != tar.TypeDir)
 	ents := []zzvEntry{first}
 	if verifrt.NondetRange("second", 0, 1) == 1 {
 		ents = append(ents, zzvEntry{typ: tar.TypeReg, name: first.name + "/x", mode: 0o644, mt: 5, data: []byte("S")})
 	}
-	zzvRun(w, ents)
+	zzvRun(w, ents, nil)
 }
